@@ -971,6 +971,16 @@ def rule_entropynorm(ctx):
 
 
 
+def rule_nceform_shared(ctx):
+    """Shared with C16.NCEFORM: each NCE / V-measure score is 1 - H(.|.) / Z with H and Z in the same base and Z the
+    entropy (or its uniform bound) of the very variable H conditions, so 0 <= H <= Z and the score stays in [0, 1]."""
+    from . import c16
+
+    for o in c16.rule_nceform(ctx):
+        o.rule = "C01.NCEFORM"
+        yield o
+
+
 def rule_matchsrc(ctx):
     """Shared with C05: the hit count in every ratio is the size of a one-to-one matching."""
     from . import c05
@@ -993,4 +1003,5 @@ RULES = [
     ("C01.VALUEDEN", 40, rule_valueden),
     ("C01.SETBOUND", 2, rule_setbound),
     ("C01.ENTROPYNORM", 3, rule_entropynorm),
+    ("C01.NCEFORM", 5, rule_nceform_shared),
 ]
